@@ -243,7 +243,22 @@ def run_victim_server(strict: bool, scenario: str,
                 if info['inj_seq'] is None:
                     info['inj_seq'] = ref.send_seq
                 info.setdefault('inj_seqs', []).append(ref.send_seq)
+                measure = k <= 2 and not 20 <= inj[1][0] <= 49
+
+                if measure:
+                    # before the first NEWKEYS: let the victim finish with
+                    # what it was legitimately sent so far, then let it
+                    # react to the injected message alone and note what it
+                    # says
+                    link.pump()
+                    seen = len(ref.packets)
+
                 ref.send_plain(inj[1])
+
+                if measure:
+                    link.pump()
+                    info.setdefault('answers', []).extend(
+                        p_['type'] for p_ in ref.packets[seen:])
 
     ref.send_hook = hook
 
@@ -393,7 +408,22 @@ def run_victim_client(strict: bool, scenario: str,
                 if info['inj_seq'] is None:
                     info['inj_seq'] = ref.send_seq
                 info.setdefault('inj_seqs', []).append(ref.send_seq)
+                measure = k <= 2 and not 20 <= inj[1][0] <= 49
+
+                if measure:
+                    # before the first NEWKEYS: let the victim finish with
+                    # what it was legitimately sent so far, then let it
+                    # react to the injected message alone and note what it
+                    # says
+                    link.pump()
+                    seen = len(ref.packets)
+
                 ref.send_plain(inj[1])
+
+                if measure:
+                    link.pump()
+                    info.setdefault('answers', []).extend(
+                        p_['type'] for p_ in ref.packets[seen:])
 
     ref.send_hook = hook
 
@@ -589,6 +619,20 @@ def judge(case, log, info, base_log, base_info) -> str:
                 'packet types %r, the untampered dialogue has %r' %
                 (info['victim_types'][:8], base_info['victim_types'][:8]),
                 'strict-answered:' + sig)
+
+    # Whatever else happens later, the victim's own reaction to a message
+    # injected before the first NEWKEYS is nothing, UNIMPLEMENTED, or the end
+    # of the connection - never an answer (a SERVICE_ACCEPT that only LOOKS
+    # like the next step of the dialogue, for one)
+    # (transport-layer packets - key exchange, NEWKEYS, EXT_INFO - are the
+    # victim's own next steps of the exchange)
+    answers = [a for a in info.get('answers', []) if a in (5, 6) or a >= 50]
+
+    if answers:
+        raise Violation(
+            'injected-message-took-effect', where + ': the victim reacted to '
+            'the injected message itself with packet type(s) %r' % answers,
+            'answered-injection:' + sig)
 
     # service, authentication and connection messages are never "unknown":
     # before the first NEWKEYS they must end the connection.  Other types
